@@ -11,6 +11,11 @@ package ast
 //@    && (forall k :: { tokens[k] } 0 <= k && k < len(tokens) ==> ((tokens[k].TokenType == EOF) == (k == len(tokens) - 1)))
 //@ pred ign(t Int) := t == WS || t == COMMENT
 //@ pred okIdx(tokens []*Token, i Int, r Int) := i < r && r < len(tokens)
+// firstSig(ts, i): the first index >= i whose token is neither whitespace nor comment (it exists
+// because the final EOF token is significant); defined by description, consumeIgnoreableTokens is proved to compute it.
+//@ specfunc firstSig([]*Token, Int) Int
+//@ axiom firstSig_def: forall ts []*Token, i Int :: { firstSig(ts, i) } tokWf(ts) && 0 <= i && i < len(ts) ==>
+//@    i <= firstSig(ts, i) && firstSig(ts, i) < len(ts) && !ign(ts[firstSig(ts, i)].TokenType) && (forall k :: { ts[k] } i <= k && k < firstSig(ts, i) ==> ign(ts[k].TokenType))
 
 //@ func consumeIgnoreableTokens [C08 C15]
 //@   noframe
@@ -18,6 +23,7 @@ package ast
 //@   ensures range: index <= result && result < len(tokens)
 //@   ensures significant: !ign(tokens[result].TokenType)
 //@   ensures skipped: forall k :: { tokens[k] } index <= k && k < result ==> ign(tokens[k].TokenType)
+//@   ensures first: result == firstSig(tokens, index)
 //@   loop 1 invariant index <= current_index && current_index < len(tokens)
 //@   loop 1 invariant forall k :: { tokens[k] } index <= k && k < current_index ==> ign(tokens[k].TokenType)
 //@   loop 1 decreases len(tokens) - current_index
@@ -258,6 +264,22 @@ package ast
 //@   noframe
 //@   requires tokWf(tokens) && 0 <= token_index && token_index < len(tokens)
 //@   ensures index: result.5 == nil ==> token_index <= result.4 && result.4 < len(tokens) && okIdx(tokens, token_index, result.4)
+// the amount clause, from the property statement C04: all | skip s | skip s take t | take n | top n | last n
+//@   let a := firstSig(tokens, token_index)
+//@   let ta := tokens[a].TokenType
+//@   let b := firstSig(tokens, a + 1)
+//@   let nb := tokens[b].TokenType == NUMBER && atoiok(tokens[b].Lexeme)
+//@   let vb := atoi(tokens[b].Lexeme)
+//@   let c := firstSig(tokens, b + 1)
+//@   let d := firstSig(tokens, c + 1)
+//@   let nd := tokens[d].TokenType == NUMBER && atoiok(tokens[d].Lexeme)
+//@   let vd := atoi(tokens[d].Lexeme)
+//@   ensures all: ta == ALL ==> result.5 == nil && result.0 && result.1 == 0 && result.2 == 0 && result.3 == 0 && result.4 == a + 1 [C04]
+//@   ensures skip: ta == SKIP && nb && tokens[c].TokenType != TAKE ==> result.5 == nil && result.0 && result.1 == vb && result.2 == 0 && result.3 == 0 && result.4 == c [C04]
+//@   ensures skiptake: ta == SKIP && nb && tokens[c].TokenType == TAKE && nd ==> result.5 == nil && !result.0 && result.1 == vb && result.2 == vd && result.3 == 0 && result.4 == d + 1 [C04]
+//@   ensures take: (ta == TAKE || ta == TOP) && nb ==> result.5 == nil && !result.0 && result.1 == 0 && result.2 == vb && result.3 == 0 && result.4 == b + 1 [C04]
+//@   ensures last: ta == LAST && nb ==> result.5 == nil && result.0 && result.1 == 0 && result.2 == 0 && result.3 == vb && result.4 == b + 1 [C04]
+//@   ensures other: !(ta == ALL || ta == SKIP || ta == TAKE || ta == TOP || ta == LAST) ==> result.5 != nil [C04]
 
 //@ func parse_process_statements [C08]
 //@   noframe
